@@ -368,11 +368,11 @@ Record JI (w : Z) (p : p2p) (g : game) : Prop := {
             CellsI w (Z.max 0 (s_current (ps_sync p) - w)) (s_current (ps_sync p) - 1) (ps_sync p) g;
 }.
 
-Definition cells_same (s s' : sync) : Prop := s_maxpred s' = s_maxpred s /\ s_cells s' = s_cells s.
+Definition cells_same (s s' : sync) : Prop := s_maxpred s' = s_maxpred s /\ s_cells s' = s_cells s /\ s_last_saved s' = s_last_saved s.
 
 Lemma CellsI_same : forall w lo hi s s' g, CellsI w lo hi s g -> cells_same s s' -> CellsI w lo hi s' g.
 Proof.
-  intros w lo hi s s' g (A & B & C & D) [E F]. unfold CellsI. rewrite E, F. repeat split; try assumption.
+  intros w lo hi s s' g (A & B & C & D) (E & F & _). unfold CellsI. rewrite E, F. repeat split; try assumption.
   - destruct (D f H) as [X _]. unfold cell_frame, cell_pos in *. rewrite E, F. exact X.
   - destruct (D f H) as [_ Y]. exact Y.
 Qed.
@@ -522,7 +522,7 @@ Proof.
     as (s1' & g1 & El' & Ex1 & Es1 & Hh1 & Hg1 & Hc1).
   rewrite El in El'. inversion El'; subst s1'. clear El'.
   set (p1 := with_sync p (reset_all (with_current (ps_sync p) fi))) in *.
-  assert (Hcs : cells_same (with_current (ps_sync p) fi) (ps_sync p1)) by (subst p1; split; reflexivity).
+  assert (Hcs : cells_same (with_current (ps_sync p) fi) (ps_sync p1)) by (subst p1; repeat split; reflexivity).
   destruct (resim_exec predict (Z.to_nat (c - fi)) 0 p1 mc (add_req o (RLoad fi)) p' o' g1 (Z.max 0 (c - w)) w Er)
     as (R & g' & A1 & A2 & A3 & A4 & A5 & A6 & A7 & A8 & A9).
   - subst p1. exact Hsp.
@@ -532,7 +532,7 @@ Proof.
   - subst p1. cbn [with_sync ps_sync reset_all with_queues s_current with_current]. exact Hg1.
   - replace (0 <? 0) with false by reflexivity.
     subst p1. cbn [with_sync ps_sync reset_all with_queues s_current with_current].
-    eapply CellsI_same; [exact Hc1|]. split; reflexivity.
+    eapply CellsI_same; [exact Hc1|]. repeat split; reflexivity.
   - subst p1. cbn [with_sync ps_sync reset_all with_queues s_current with_current]. lia.
   - subst p1. cbn [with_sync ps_sync reset_all with_queues s_current with_current] in A6, A8.
     cbn [add_req o_requests o_remote_sends o_spec_sends] in A1, A2, A3.
@@ -558,7 +558,7 @@ Definition p_frame (p p' : p2p) : Prop :=
 Lemma sync_frame_refl : forall s, sync_frame s s.
 Proof. intro s. repeat split. Qed.
 Lemma sync_frame_trans : forall a b c, sync_frame a b -> sync_frame b c -> sync_frame a c.
-Proof. intros a b c [[A1 A2] A3] [[B1 B2] B3]. repeat split; congruence. Qed.
+Proof. intros a b c [(A1 & A2 & A4) A3] [(B1 & B2 & B4) B3]. repeat split; congruence. Qed.
 Lemma p_frame_refl : forall p, p_frame p p.
 Proof. intro p. repeat split. Qed.
 Lemma p_frame_trans : forall a b c, p_frame a b -> p_frame b c -> p_frame a c.
@@ -596,7 +596,7 @@ Proof.
     apply IH in H. destruct H as (F & S & R1 & R2).
     cbn [with_outgoing ps_sync] in *.
     split; [|split; [exact S|]].
-    + destruct F as (A & B & C). repeat split; cbn in *; try congruence; destruct C as [[C1 C2] C3]; congruence.
+    + destruct F as (A & B & C). repeat split; cbn in *; try congruence; destruct C as [(C1 & C2 & C4) C3]; congruence.
     + destruct (existsb ev_running (ps_remotes p)); cbn [add_rsend o_requests o_spec_sends] in *; split; congruence.
 Qed.
 
@@ -625,7 +625,7 @@ Proof.
   - destruct (assoc_get (ps_pending p) h) as [pi|]; [|discriminate].
     apply res_bind_ok in H. destruct H as ([s' actual] & E1 & H).
     destruct (add_local_input_frame _ _ _ _ _ _ E1) as [F1 _].
-    assert (P1 : p_frame p (with_sync p s')) by (repeat split; cbn; try apply F1; destruct F1 as [[A B] C]; auto).
+    assert (P1 : p_frame p (with_sync p s')) by (repeat split; cbn; try apply F1; destruct F1 as [(A & B & B') C]; auto).
     destruct (actual =? NULL).
     + eapply p_frame_trans; [exact P1|]. apply IH. exact H.
     + apply res_bind_ok in H. destruct H as (p2 & E2 & H).
@@ -702,7 +702,7 @@ Proof.
     destruct (negb _); [discriminate|]. destruct (negb _); [discriminate|].
     apply IH in H. destruct H as (F & S & R). cbn [with_next_spec ps_sync] in *.
     split; [|split; [exact S|]].
-    + destruct F as (A & B & C). repeat split; cbn in *; try congruence; destruct C as [[C1 C2] C3]; congruence.
+    + destruct F as (A & B & C). repeat split; cbn in *; try congruence; destruct C as [(C1 & C2 & C4) C3]; congruence.
     + destruct (existsb _ _); cbn [add_ssend o_requests] in R; exact R.
 Qed.
 
